@@ -103,7 +103,7 @@ func DrawFunctional(rt *rapid.T, o FuncOpt) *Subject {
 	if o.Kind == "error" && !o.Avoid["C15-unnamed-params"] {
 		// every subject has one ToError whose function has an error parameter and a second parameter, named
 		// after identifiers the generated wrapper uses itself (the supplied error, the results, f)
-		names := rapid.Permutation([]string{"e", "err", "out0", "success", "f", "c", "e1"}).Draw(rt, "te-fixed-names")
+		names := rapid.Permutation([]string{"e", "err", "out0", "success", "f", "c", "e1", "nil"}).Draw(rt, "te-fixed-names")
 		fsig := &progen.Sig{Params: []progen.Param{{Name: names[0], Type: progen.ErrorT()}, {Name: names[1], Type: progen.B("int")}},
 			Results: []*progen.Type{progen.B("string"), progen.B("bool")}, Mode: "hostile"}
 		if used.Claim("toerror|" + fsig.TypeKey()) {
